@@ -45,11 +45,14 @@ def build_cases(ctx, want_equations=None):
             for b in sides:
                 if core.tuple_size(a) + core.tuple_size(b) + 1 <= n:
                     add(("B", 0, "eq", a, b), "exhaustive")
-    nrand = 3000 if quick else 60000
+    nrand = 1200 if quick else 60000
+    max_nodes = 45 if quick else 90
     for i in range(nrand):
-        depth = rng.choice([2, 3, 3, 4, 4, 5])
+        depth = rng.choice([2, 3, 3, 4] if quick else [2, 3, 3, 4, 4, 5])
         eq = (want_equations is True) or (want_equations is None and rng.random() < 0.3)
-        add(gen.rand_tree(rng, depth, allow_eq=eq), "random")
+        t = gen.rand_tree(rng, depth - 1 if eq else depth, allow_eq=eq)
+        if core.tuple_size(t) <= max_nodes:
+            add(t, "random")
     return trees, stats
 
 
